@@ -154,4 +154,116 @@ theorem generate_noTarget {o : Opts} {fs : SbomDir} {ord : List Id → List Id} 
       have := addApks_noTarget hord _ h0 ha
       exact ⟨by rw [← this.1], this.2.1, this.2.2⟩
 
+/-! ### errors without target elements: only a directory at an SBOM path or a licence conflict -/
+
+theorem locate_error {fs : SbomDir} {stems : List Text} {e : Err} (h : locate fs stems = .error e) :
+    e = .sbomIsDir := by
+  induction stems with
+  | nil => simp [locate] at h
+  | cons s rest ih =>
+    simp only [locate] at h
+    split at h
+    · exact ih h
+    · cases h; rfl
+    · cases h
+
+theorem mergeLics_error {s t : List (Text × Text)} {e : Err} (h : mergeLics s t = .error e) :
+    e = .licConflict := by
+  induction s generalizing t with
+  | nil => simp [mergeLics] at h
+  | cons x xs ih =>
+    simp only [mergeLics] at h
+    split at h
+    · split at h
+      · cases h; rfl
+      · exact ih h
+    · exact ih h
+
+theorem processInternal_noTarget_err {fs : SbomDir} {ord : List Id → List Id} {doc : Doc} {name version : Text}
+    {e : Err}
+    (h0 : ∀ emb, locate fs (sbomStems name version) = .ok (some (.doc emb)) → (targets emb name).length ≤ 0)
+    (h : processInternal fs ord doc name version = .error e) : e = .sbomIsDir ∨ e = .licConflict := by
+  unfold processInternal at h
+  split at h
+  · next e' hl => cases h; exact Or.inl (locate_error hl)
+  · cases h
+  · cases h
+  · cases h
+  · next emb hloc =>
+    dsimp only at h
+    have ht : targets emb name = [] := List.eq_nil_of_length_eq_zero (Nat.le_zero.mp (h0 emb hloc))
+    rw [ht, copyElements_nil] at h
+    dsimp only at h
+    split at h
+    · next e' hm => cases h; exact Or.inr (mergeLics_error hm)
+    · cases h
+
+theorem addApks_noTarget_err {fs : SbomDir} {ord : List Id → List Id} {nonce : Text}
+    (apks : List Apk) (h0 : ∀ a ∈ apks, targetCount fs a = 0) {doc : Doc} {e : Err}
+    (h : addApks fs ord nonce apks doc = .error e) : e = .sbomIsDir ∨ e = .licConflict := by
+  induction apks generalizing doc with
+  | nil => simp [addApks] at h
+  | cons a as ih =>
+    simp only [addApks] at h
+    split at h
+    · next e' ha =>
+      cases h
+      unfold addApk at ha
+      exact processInternal_noTarget_err (targetCount_le (Nat.le_of_eq (h0 a (by simp)))) ha
+    · exact ih (fun b hb => h0 b (by simp [hb])) h
+
+/-- when no embedded SBOM has a target element, `Generate` fails only for: no layers, a directory at an SBOM
+path, conflicting licensing infos — never with "unable to find elements" -/
+theorem generate_noTarget_err {o : Opts} {fs : SbomDir} {ord : List Id → List Id} {e : Err}
+    (h0 : ∀ a ∈ o.apks, targetCount fs a = 0) (h : generate o fs ord = .error e) :
+    e = .noLayers ∨ e = .sbomIsDir ∨ e = .licConflict := by
+  unfold generate at h
+  split at h
+  · cases h; exact Or.inl rfl
+  · split at h
+    · next e' ha => cases h; exact Or.inr (addApks_noTarget_err _ h0 ha)
+    · cases h
+
+/-! ### errors in general -/
+
+theorem copyElements_error {src tgt : Doc} {t0 : List Id} {e : Err} (h : copyElements src tgt t0 = .error e) :
+    e = .fuel ∨ e = .missing := by
+  unfold copyElements at h
+  split at h
+  · cases h; exact Or.inl rfl
+  · split at h
+    · cases h
+    · cases h; exact Or.inr rfl
+
+theorem processInternal_error {fs : SbomDir} {ord : List Id → List Id} {doc : Doc} {name version : Text}
+    {e : Err} (h : processInternal fs ord doc name version = .error e) :
+    e = .sbomIsDir ∨ e = .fuel ∨ e = .missing ∨ e = .licConflict := by
+  unfold processInternal at h
+  split at h
+  · next e' hl => cases h; exact Or.inl (locate_error hl)
+  · cases h
+  · cases h
+  · cases h
+  · dsimp only at h
+    split at h
+    · next e' hc =>
+      cases h
+      rcases copyElements_error hc with h | h
+      · exact Or.inr (Or.inl h)
+      · exact Or.inr (Or.inr (Or.inl h))
+    · split at h
+      · next e' hm => cases h; exact Or.inr (Or.inr (Or.inr (mergeLics_error hm)))
+      · cases h
+
+theorem addApks_error {fs : SbomDir} {ord : List Id → List Id} {nonce : Text}
+    (apks : List Apk) {doc : Doc} {e : Err} (h : addApks fs ord nonce apks doc = .error e) :
+    e = .sbomIsDir ∨ e = .fuel ∨ e = .missing ∨ e = .licConflict := by
+  induction apks generalizing doc with
+  | nil => simp [addApks] at h
+  | cons a as ih =>
+    simp only [addApks] at h
+    split at h
+    · next e' ha => cases h; unfold addApk at ha; exact processInternal_error ha
+    · exact ih h
+
 end Apko.Sbom
